@@ -339,6 +339,39 @@ def _hit_branch(fn: ast.FunctionDef) -> list[str]:
     return []
 
 
+def _cache_shape(st_tree: ast.Module, as_tree: ast.Module) -> dict[str, bool]:
+    """How the call-state cache ages its entries.
+
+    * `_CallStateCache.get`: `if expires_at <= now:` → delete + miss; a hit only does `move_to_end` (no write to
+      `self._entries[key]`, i.e. the deadline is not refreshed),
+    * `_CallStateCache.put`: `self._entries[key] = (now + self._ttl, resolved)`,
+    * `_call_cache_birth`: `float(created_at) if app._token_ttl > 0 else now`, and both `put` call sites of
+      `_app_stream` pass `_call_cache_birth(app, <token created_at>, now)`,
+    * `_HttpRpcApp`: the cache's ttl is `float(token_ttl) if token_ttl > 0 else 3600.0`.
+    """
+    cls = next(n for n in ast.walk(st_tree) if isinstance(n, ast.ClassDef) and n.name == "_CallStateCache")
+    get = next(n for n in cls.body if isinstance(n, ast.FunctionDef) and n.name == "get")
+    put = next(n for n in cls.body if isinstance(n, ast.FunctionDef) and n.name == "put")
+    expiry = [n for n in ast.walk(get) if isinstance(n, ast.If) and ast.unparse(n.test) == "expires_at <= now"]
+    expiry_ok = len(expiry) == 1 and any(isinstance(b, ast.Return) and ast.unparse(b) == "return None" for b in expiry[0].body)
+    writes = [n for n in ast.walk(get) if isinstance(n, (ast.Assign, ast.AugAssign))
+              and "self._entries" in ast.unparse(n.targets[0] if isinstance(n, ast.Assign) else n.target)]
+    put_ok = any(isinstance(n, ast.Assign) and ast.unparse(n) == "self._entries[key] = (now + self._ttl, resolved)" for n in ast.walk(put))
+    try:
+        birth = _func(as_tree, "_call_cache_birth")
+        rets = [n for n in ast.walk(birth) if isinstance(n, ast.Return)]
+        birth_ok = len(rets) == 1 and ast.unparse(rets[0].value) == "float(created_at) if app._token_ttl > 0 else now"  # type: ignore[arg-type]
+    except Shape:
+        birth_ok = False
+    puts = [n for n in ast.walk(as_tree) if isinstance(n, ast.Call) and ast.unparse(n.func).endswith("_call_state_cache.put")]
+    puts_ok = len(puts) == 2 and all(
+        len(c.args) == 4 and isinstance(c.args[3], ast.Call) and ast.unparse(c.args[3].func) == "_call_cache_birth" for c in puts
+    ) and sorted(ast.unparse(c.args[3]) for c in puts) == ["_call_cache_birth(app, created_at, now)", "_call_cache_birth(app, int(minted_at), minted_at)"]
+    app_py = REPO / "vgi_rpc/http/server/_app.py"
+    ttl_ok = "ttl=float(token_ttl) if token_ttl > 0 else 3600.0" in ast.unparse(ast.parse(app_py.read_text()))
+    return {"expiry": expiry_ok, "refresh": bool(writes), "put": put_ok, "birth": birth_ok, "puts": puts_ok, "cache_ttl": ttl_ok}
+
+
 def _call_order(fn: ast.FunctionDef) -> list[str]:
     """Steps of `_resolve_call_from_token` in source order."""
     ev: list[tuple[int, int, str]] = []
@@ -470,6 +503,7 @@ def emit() -> dict[str, str]:
     strict = _strict_b64(st_tree, open_cur) and _strict_b64(st_tree, open_call)
     validate = _b64_validate(st_tree, open_cur) and _b64_validate(st_tree, open_call)
     mb = _method_binding(st_tree, as_tree, aad_call)
+    cs = _cache_shape(st_tree, as_tree)
     method_bound = all(mb.values())
     method_partial = any(mb.values()) and not method_bound
 
@@ -555,6 +589,13 @@ def rejectSites : List (String × String × String) := [
 
 /-- steps of `_unpack_and_recover_state`, in source order -/
 def recoverOrder : List String := [{order}]
+/-- `_CallStateCache.get`: an entry with `expires_at <= now` is deleted and reported as a miss -/
+def cacheGetExpires : Bool := {str(cs["expiry"]).lower()}
+/-- `_CallStateCache.get` writes `self._entries[key]` on a hit (moves the deadline) -/
+def cacheGetRefreshes : Bool := {str(cs["refresh"]).lower()}
+/-- `put` stores `now + ttl`; both call sites pass `_call_cache_birth(app, <created_at of the call token>, now)` =
+    `float(created_at) if token_ttl > 0 else now`; the cache ttl is `token_ttl` when positive (else 3600) -/
+def cacheAgesFromToken : Bool := {str(cs["put"] and cs["birth"] and cs["puts"] and cs["cache_ttl"]).lower()}
 /-- the two branches of `if resolved is None:` in `_unpack_and_recover_state` -/
 def recoverBranches : List String := [{", ".join(_lean_str(x) for x in _hit_branch(rec))}]
 /-- steps of `_resolve_call_from_token`, in source order -/
